@@ -151,7 +151,7 @@ EXTRA_FIELDS = [
 
 def gen_response(tape, method='GET', allow_truncate=False, allow_surplus=True, allow_close_framing=True,
                  allow_nobody_with_length=True, allow_coding=True, allow_lf=True, allow_fold=True,
-                 big_ok=True, content_types=None, surplus_same_read_only=False, allow_interim=False):
+                 big_ok=True, content_types=None, surplus_same_read_only=False, allow_interim=False, allow_stray_crlf=False):
     r = Resp()
     rng = tape.subrng('resp.rng')
     r.method = method
@@ -288,6 +288,10 @@ def gen_response(tape, method='GET', allow_truncate=False, allow_surplus=True, a
         allow_surplus = False
     if allow_surplus and framing == 'length' and tape.chance(1, 6, 'surplus'):
         r.surplus = tape.choice((b'X', b'\r\n', b'garbage after the message', b'HTTP/1.1 200 OK\r\nContent-Length: 1\r\n\r\nZ'), 'surplus.kind')
+    if allow_stray_crlf and allow_surplus and not r.surplus and not r.close_after and framing in ('chunked', 'none') and tape.chance(1, 8, 'stray_crlf'):
+        # an empty line after a complete message (some servers end every response with an extra CRLF): it belongs to no response
+        r.surplus = tape.choice((b'\r\n', b'\r\n\r\n', b'\n'), 'stray_crlf.kind')
+        r.desc['stray_crlf'] = True
     if allow_truncate and total > 1 and tape.chance(1, 5, 'truncate'):
         where = tape.draw(4, 'trunc.where')
         if where == 0:
